@@ -38,6 +38,9 @@ CHECKS = {
  "C16": ("other", "Structural part of the exit-status contract: the normal form of util::lib::exit's conditions (code 0 AND any-errors code configured AND flag => N; SUCCESS; else the code) and that run() feeds it only 0/1; the any-errors flag store after the receive loop is control dependent on both the error total and the fatal error (F3 repaired) and the statistics-mismatch branch stores it too; validate_args()? dominates the configuration side effects and init_config dominates everything in run(); validate_args rejects each documented invalid combination; mute/error-code-filter/cap accessors are read only on display paths and every StatType::Error emission is inevitable on both outcomes of a display-option test; total_errors is written only together with a stored message. Does not decide -w string matching or -e counts.",
          "Trusted: rustc nightly front end, /verif/driver, fpv (THIR condition normal forms, MIR control dependence, who-may-call).",
          "THIR decision-table normal forms + MIR control dependence / dominance + who-may-call tables", "DESIGN.md §3 C16"),
+ "C18": ("other", "Input-layer error discipline on every path: each call that reads from the input reader and returns io::Result (RDH/sub-word loaders, payload loader, seeks, load_cdp, batch builder, init_reader, init_processing, process) has its result propagated, matched or returned - never unwrapped/expected/ignored (in-memory re-decodes from byte slices are distinguished by the reader type); the batch builder breaks on UnexpectedEof/InvalidData keeping the partial batch and only an empty batch is an error; the reader sends the short last batch before stopping; a payload cut short is reported and the RDH still delivered; a skip past the end is reported and processing continues. Does not decide equality of findings on the intact prefix.",
+         "Trusted: rustc nightly front end, /verif/driver, fpv provenance.",
+         "error-discipline dataflow over MIR call results + THIR match-arm tables", "DESIGN.md §3 C18"),
 }
 
 NOT_APPLICABLE = {
